@@ -336,30 +336,3 @@ extern "C" void h_bind_answer()
               "C10 bind answered: the session opens only after a successful bind with nothing left to negotiate; with stream management offered the enable request comes first; any failure gives up (error reported, disconnect requested)");
     if (d->sessionStarted) fx.requestsAllCancelled(); else fx.requestsAllRetained();
 }
-#ifdef C10_DEBUG
-extern "C" void h_dbg()
-{
-    Fx &fx = *new Fx;
-    auto *d = fx.d;
-    d->isAuthenticated = fx.preAuth = true;
-    d->c2sStreamManager.m_enabled = fx.preEnabledC2s = false; d->c2sStreamManager.m_streamResumed = fx.preResumed = false;
-    d->streamAckManager.m_enabled = false;
-    d->c2sStreamManager.m_smAvailable = true;
-    fx.q->startResourceBinding();
-    QString id = std::get<BindManager>(d->listener).m_iqId;
-    vp_c10_reset_logs();
-    QDomElement el = vpElement(QStringLiteral("iq"), ns_client.toString());
-    vpAttr(el, QStringLiteral("id"), id);
-    vpAttr(el, QStringLiteral("type"), QStringLiteral("result"));
-    QDomElement b = vpElement(QStringLiteral("bind"), ns_bind.toString());
-    QDomElement j = vpElement(QStringLiteral("jid"), QString()); QString t = vpFixString(2); vp_dom_set_text(&j, &t); vp_dom_append(&b, &j);
-    vp_dom_append(&el, &b);
-    vp_assert(d->listener.index() == 6, "C10 dbg0 listener index");
-    vp_assert(QXmppBindIq::isBindIq(el), "C10 dbg1 isBindIq");
-    vp_assert(el.attribute(QStringLiteral("id")) == id, "C10 dbg2 id");
-    QXmppBindIq bind; bind.parse(el);
-    vp_assert(bind.type() == QXmppIq::Result, "C10 dbg3 type");
-    vp_assert(!bind.jid().isEmpty(), "C10 dbg4 jid");
-    vp_assert(d->c2sStreamManager.canRequestEnable(), "C10 dbg5 canRequestEnable");
-}
-#endif
